@@ -265,8 +265,8 @@ theorem filter_dropWhile {α} (p q : α → Bool) (l : List α) (h : ∀ x, q x 
   | nil => rfl
   | cons a l ih =>
     by_cases hq : q a = true
-    · simp [List.dropWhile_cons, hq, List.filter_cons, h a hq, ih]
-    · simp [List.dropWhile_cons, hq]
+    · simp [hq, h a hq, ih]
+    · simp [hq]
 
 theorem dropWhile_sorted (t : Int) (l : List IRow)
     (hs : l.Pairwise (fun a b => a.frame ≤ b.frame)) :
